@@ -55,6 +55,9 @@ theorem putBack_eq (k : Kind) (a : Bool) : putBack k a = !a := by cases k <;> rf
 theorem closeDelta_eq (k : Kind) : closeDelta k = -1 := by cases k <;> rfl
 theorem breakerFirst_eq (k : Kind) : breakerFirst k = true := by cases k <;> rfl
 theorem destroyed_ne_reset : streamStateDestroyed ≠ streamStateReset := by decide
+theorem destroyProceeds_iff (x : Nat) : destroyProceeds x = true ↔ x = streamStateReset := by simp [destroyProceeds]
+theorem resetProceeds_iff (x : Nat) : resetProceeds x = true ↔ x = streamStateReset := by simp [resetProceeds]
+theorem destroyedState_eq : destroyedState = streamStateDestroyed := rfl
 theorem markClose_local (k : Kind) : markClose k reasonStreamLocalReset false = true := by cases k <;> decide
 theorem markClose_remote_h1 : markClose .h1 reasonStreamRemoteReset false = true := by decide
 theorem live_iff (st : Stream) : st.live = true ↔ st.state = streamStateReset := by simp [Stream.live]
@@ -71,7 +74,7 @@ theorem destroyStream_close (s : State) (i c : Nat) (hl : (s.stream i).live = tr
       { s.stream i with state := streamStateDestroyed, destroys := (s.stream i).destroys + 1 }
       { s.client c with netOpen := false, closed := true } := by
   have hst := (live_iff _).mp hl
-  simp only [destroyStream, hst, if_true, hc, onStreamDestroy, closeOnDestroy_eq, putBack_eq, updS_client, updS_kind, hcl, hcc]
+  simp only [destroyStream, destroyProceeds_iff, destroyedState_eq, hst, if_true, hc, onStreamDestroy, closeOnDestroy_eq, putBack_eq, updS_client, updS_kind, hcl, hcc]
   rw [netDown_open _ _ (by simpa using hno)]
   simp [tFinishClose, closeDelta_eq, poolOnClose, State.updC, State.updS]
   refine ⟨by omega, ?_, ?_⟩
@@ -83,15 +86,15 @@ theorem destroyStream_put (s : State) (i c : Nat) (hl : (s.stream i).live = true
     destroyStream s i = tFinishPut s i c
       { s.stream i with state := streamStateDestroyed, destroys := (s.stream i).destroys + 1 } := by
   have hst := (live_iff _).mp hl
-  simp [destroyStream, hst, hc, onStreamDestroy, closeOnDestroy_eq, putBack_eq, hcl, hcc, tFinishPut, State.updS]
+  simp [destroyStream, destroyProceeds_iff, destroyedState_eq, hst, hc, onStreamDestroy, closeOnDestroy_eq, putBack_eq, hcl, hcc, tFinishPut, State.updS]
 
 theorem destroyStream_dead (s : State) (i : Nat) (hl : (s.stream i).live = false) : destroyStream s i = s := by
   have := (not_live_iff _).mp hl
-  simp [destroyStream, this]
+  simp [destroyStream, destroyProceeds_iff, this]
 
 theorem resetStream_dead (s : State) (i : Nat) (r : String) (hl : (s.stream i).live = false) : resetStream s i r = s := by
   have := (not_live_iff _).mp hl
-  simp [resetStream, this]
+  simp [resetStream, resetProceeds_iff, this]
 
 theorem onStreamDestroy_closed (s : State) (c : Nat) (hcl : (s.client c).closed = true) :
     onStreamDestroy s c = { s with reqCur := resDecrease s.maxReq s.reqCur } := by
@@ -105,7 +108,7 @@ theorem resetStream_close (s : State) (i c : Nat) (r : String) (hl : (s.stream i
       { s.client c with cwar := (s.client c).cwar || markCwar s.kind r, closeConn := true, dirty := true,
                         netOpen := false, closed := true } := by
   have hst := (live_iff _).mp hl
-  simp only [resetStream, hst, if_true, hc]
+  simp only [resetStream, resetProceeds_iff, hst, if_true, hc]
   rw [destroyStream_close _ i c (by simp [Stream.live, hst]) (by simp [hc]) (by simp [hcl]) (by simp [hcl, hm]) (by simp [hno])]
   simp [tFinishClose, State.updC, State.updS, hcl, hm]
   refine ⟨?_, ?_⟩
@@ -122,8 +125,8 @@ theorem netDown_reset (s : State) (i c : Nat) (r : String) (hl : (s.stream i).li
                         netOpen := false, closed := true } := by
   have hst := (live_iff _).mp hl
   rw [netDown_open s c hno]
-  simp only [resetStream, poolOnClose_stream, updC_stream, hst, if_true, hc, destroyStream, updS_stream,
-    poolOnClose_kind, updC_kind]
+  simp only [resetStream, resetProceeds_iff, destroyProceeds_iff, destroyedState_eq, poolOnClose_stream, updC_stream, hst, if_true, hc,
+    destroyStream, updS_stream, poolOnClose_kind, updC_kind]
   rw [onStreamDestroy_closed _ c (by simp)]
   simp [tFinishClose, State.updC, State.updS, poolOnClose, closeDelta_eq]
   refine ⟨by omega, ?_, ?_⟩
